@@ -217,7 +217,10 @@ def rand_worker(arg: tuple) -> dict:
             w1 = rng.normal(size=D) + 1j * rng.normal(size=D)
             w2 = rng.normal(size=D) + 1j * rng.normal(size=D)
             t1, t2 = StateVector(torch.tensor(w1), gpu=False), StateVector(torch.tensor(w2), gpu=False)
-            for (x, y, vx, vy) in ((s1, s2, r1, r2), (t1, t2, w1, w2)):
+            # operations are judged against the dense definition applied to the operands' OWN data (captured
+            # before the call), so a wrong constructor does not cascade into the keys of the operations
+            for (x, y) in ((s1, s2), (t1, t2)):
+                vx, vy = x.data.numpy().copy(), y.data.numpy().copy()
                 sc = float(np.linalg.norm(vx) * np.linalg.norm(vy))
                 chk("sv-objects:StateVector:inner", complex(x.inner(y)), np.vdot(vx, vy), desc, sc)
                 chk("sv-objects:StateVector:inner", complex(inner(x, y)), np.vdot(vx, vy), desc, sc)
@@ -226,6 +229,7 @@ def rand_worker(arg: tuple) -> dict:
                 chk("sv-objects:StateVector:add", (x + y).data.numpy(), vx + vy, desc, sc)
                 chk("sv-objects:StateVector:scalar-mul", (z * x).data.numpy(), z * vx, desc, sc * abs(z))
                 chk("sv-objects:StateVector:operand-changed", x.data.numpy(), vx, desc)
+            chk("sv-objects:StateVector:raw-constructor", t1.data.numpy(), w1, desc)
             # density matrices
             d1 = DensityMatrix.from_state_amplitudes(eigenstates=eig, amplitudes=a1)
             chk("sv-objects:DensityMatrix:from_state_amplitudes:not-the-projector", d1.data.numpy(), np.outer(r1, r1.conj()), desc)
@@ -236,7 +240,7 @@ def rand_worker(arg: tuple) -> dict:
                 m2 = rng.normal(size=(D, D)) + 1j * rng.normal(size=(D, D))
                 chk("sv-objects:DensityMatrix:overlap", complex(DensityMatrix(torch.tensor(m1), gpu=False).overlap(DensityMatrix(torch.tensor(m2), gpu=False))),
                     np.trace(m1.conj().T @ m2), desc, float(np.linalg.norm(m1) * np.linalg.norm(m2)))
-            chk("sv-objects:DensityMatrix:overlap", complex(d1.overlap(d2)), np.vdot(r1, w2) * np.vdot(w2, r1), desc, float(np.linalg.norm(w2)) ** 2)
+            chk("sv-objects:DensityMatrix:overlap", complex(d1.overlap(d2)), np.trace(d1.data.numpy().conj().T @ d2.data.numpy()), desc, float(np.linalg.norm(w2)) ** 2)
             for nm, f in (("add", lambda: d1 + d2), ("scalar-mul", lambda: 2.0 * d1)):
                 try:
                     f()
@@ -254,22 +258,26 @@ def rand_worker(arg: tuple) -> dict:
             chk("sv-objects:SparseOperator:from_operator_repr:wrong-matrix", sparse_to_dense(S1.data), R1, desc, sc1)
             chk("sv-objects:dense-vs-sparse-differ", sparse_to_dense(S2.data), D2.data.numpy(), desc, sc2)
             nv = float(np.linalg.norm(w1))
-            chk("sv-objects:DenseOperator:apply_to", D1.apply_to(t1).data.numpy(), R1 @ w1, desc, sc1 * nv)
-            chk("sv-objects:SparseOperator:apply_to", S1.apply_to(t1).data.numpy(), R1 @ w1, desc, sc1 * nv)
-            chk("sv-objects:DenseOperator:expect", complex(D1.expect(t1)), np.vdot(w1, R1 @ w1), desc, sc1 * nv * nv)
-            chk("sv-objects:SparseOperator:expect", complex(S1.expect(t1)), np.vdot(w1, R1 @ w1), desc, sc1 * nv * nv)
-            chk("sv-objects:DenseOperator:expect", complex(D2.expect(s1)), np.vdot(r1, R2 @ r1), desc, sc2)
-            chk("sv-objects:DenseOperator:add", (D1 + D2).data.numpy(), R1 + R2, desc, sc1 + sc2)
-            chk("sv-objects:SparseOperator:add", sparse_to_dense((S1 + S2).data), R1 + R2, desc, sc1 + sc2)
-            chk("sv-objects:DenseOperator:scalar-mul", (z * D1).data.numpy(), z * R1, desc, sc1 * abs(z))
-            chk("sv-objects:SparseOperator:scalar-mul", sparse_to_dense((z * S1).data), z * R1, desc, sc1 * abs(z))
-            chk("sv-objects:DenseOperator:matmul", (D1 @ D2).data.numpy(), R1 @ R2, desc, sc1 * sc2)
+            # operations: against the operands' own matrices
+            A1, A2 = D1.data.numpy().copy(), D2.data.numpy().copy()
+            B1, B2 = sparse_to_dense(S1.data).copy(), sparse_to_dense(S2.data).copy()
+            x1 = s1.data.numpy().copy()
+            chk("sv-objects:DenseOperator:apply_to", D1.apply_to(t1).data.numpy(), A1 @ w1, desc, sc1 * nv)
+            chk("sv-objects:SparseOperator:apply_to", S1.apply_to(t1).data.numpy(), B1 @ w1, desc, sc1 * nv)
+            chk("sv-objects:DenseOperator:expect", complex(D1.expect(t1)), np.vdot(w1, A1 @ w1), desc, sc1 * nv * nv)
+            chk("sv-objects:SparseOperator:expect", complex(S1.expect(t1)), np.vdot(w1, B1 @ w1), desc, sc1 * nv * nv)
+            chk("sv-objects:DenseOperator:expect", complex(D2.expect(s1)), np.vdot(x1, A2 @ x1), desc, sc2)
+            chk("sv-objects:DenseOperator:add", (D1 + D2).data.numpy(), A1 + A2, desc, sc1 + sc2)
+            chk("sv-objects:SparseOperator:add", sparse_to_dense((S1 + S2).data), B1 + B2, desc, sc1 + sc2)
+            chk("sv-objects:DenseOperator:scalar-mul", (z * D1).data.numpy(), z * A1, desc, sc1 * abs(z))
+            chk("sv-objects:SparseOperator:scalar-mul", sparse_to_dense((z * S1).data), z * B1, desc, sc1 * abs(z))
+            chk("sv-objects:DenseOperator:matmul", (D1 @ D2).data.numpy(), A1 @ A2, desc, sc1 * sc2)
             try:
                 S1 @ S2
             except NotImplementedError:
                 res["notimpl"].add("SparseOperator.matmul")
-            chk("sv-objects:DenseOperator:operand-changed", D1.data.numpy(), R1, desc, sc1)
-            chk("sv-objects:SparseOperator:operand-changed", sparse_to_dense(S1.data), R1, desc, sc1)
+            chk("sv-objects:DenseOperator:operand-changed", D1.data.numpy(), A1, desc, sc1)
+            chk("sv-objects:SparseOperator:operand-changed", sparse_to_dense(S1.data), B1, desc, sc1)
             # raw matrices
             if n <= 6:
                 M = rng.normal(size=(D, D)) + 1j * rng.normal(size=(D, D))
@@ -278,8 +286,10 @@ def rand_worker(arg: tuple) -> dict:
                 scm = float(np.abs(M).sum(axis=1).max()) + 1
                 chk("sv-objects:DenseOperator:apply_to", DM_.apply_to(t2).data.numpy(), M @ w2, desc, scm * float(np.linalg.norm(w2)))
                 chk("sv-objects:SparseOperator:apply_to", SM_.apply_to(t2).data.numpy(), M @ w2, desc, scm * float(np.linalg.norm(w2)))
-                chk("sv-objects:SparseOperator:add", sparse_to_dense((SM_ + S1).data), M + R1, desc, scm + sc1)
-                chk("sv-objects:DenseOperator:matmul", (DM_ @ D1).data.numpy(), M @ R1, desc, scm * sc1)
+                chk("sv-objects:DenseOperator:raw-constructor", DM_.data.numpy(), M, desc, scm)
+                chk("sv-objects:SparseOperator:raw-constructor", sparse_to_dense(SM_.data), M, desc, scm)
+                chk("sv-objects:SparseOperator:add", sparse_to_dense((SM_ + S1).data), M + B1, desc, scm + sc1)
+                chk("sv-objects:DenseOperator:matmul", (DM_ @ D1).data.numpy(), M @ A1, desc, scm * sc1)
         except Exception as ex:
             import traceback
 
@@ -287,6 +297,47 @@ def rand_worker(arg: tuple) -> dict:
         res["n"] += 1
     res["notimpl"] = sorted(res["notimpl"])
     return res
+
+
+def _isolated(fn, arg):
+    """fn(arg) in a fresh single-use process; returns (result, crashed)."""
+    import concurrent.futures as cf
+    import multiprocessing as mp
+    from concurrent.futures.process import BrokenProcessPool
+
+    from harness import pool
+
+    try:
+        with cf.ProcessPoolExecutor(max_workers=1, mp_context=mp.get_context("spawn"), initializer=pool._init) as ex:
+            return ex.submit(fn, arg).result(), False
+    except BrokenProcessPool:
+        return None, True
+
+
+def robust_map(ctx: Ctx, fn, chunks: list, procs: int, wrap, unwrap) -> tuple[list, list]:
+    """pmap that survives a hard crash (segfault / abort) of the code under test: the crashing chunk is
+    bisected in fresh processes down to one item, which is returned in the second list."""
+    from concurrent.futures.process import BrokenProcessPool
+
+    try:
+        return pmap(fn, chunks, procs=procs), []
+    except BrokenProcessPool:
+        ctx.log("a worker process died (crash inside the code under test); isolating the input")
+    results, crashed = [], []
+    for ch in chunks:
+        r, bad = _isolated(fn, ch)
+        if not bad:
+            results.append(r)
+            continue
+        items = unwrap(ch)
+        while len(items) > 1:
+            half = items[: len(items) // 2]
+            _, bad_half = _isolated(fn, wrap(ch, half))
+            items = half if bad_half else items[len(items) // 2:]
+        crashed.append(items[0])
+        if len(crashed) >= 2:
+            break
+    return results, crashed
 
 
 def run(ctx: Ctx) -> None:
@@ -361,9 +412,13 @@ def run(ctx: Ctx) -> None:
             seen.add(k)
             uniq.append(it)
     csz = max(40, len(uniq) // (4 * procs) + 1)
-    for part in pmap(replay_worker, [uniq[a:a + csz] for a in range(0, len(uniq), csz)], procs=procs):
+    parts, crashed = robust_map(ctx, replay_worker, [uniq[a:a + csz] for a in range(0, len(uniq), csz)], procs, lambda ch, items: items, lambda ch: list(ch))
+    for part in parts:
         for key, what, desc in part:
             note(key, what, desc)
+    for it in crashed:
+        note(f"sv-objects:{'state' if it[0] == 'ST' else 'operator'}-constructor:crashes-the-interpreter",
+             "building this object with the real constructors kills the Python process (segmentation fault / abort)", {"kind": it[0], "n": it[1], "object": it[2], "entries": it[3]})
     nst = sum(1 for it in uniq if it[0] == "ST")
     for it in uniq:
         nontriv = bool(it[3]) and (it[0] == "ST" or any(parts for _, parts in it[2]))
@@ -379,7 +434,11 @@ def run(ctx: Ctx) -> None:
     nchunk = 4 * procs
     worst = 0.0
     notimpl = set()
-    for res in pmap(rand_worker, [(seed, cases[a::nchunk]) for a in range(nchunk) if cases[a::nchunk]], procs=procs):
+    parts2, crashed2 = robust_map(ctx, rand_worker, [(seed, cases[a::nchunk]) for a in range(nchunk) if cases[a::nchunk]], procs,
+                                  lambda ch, items: (ch[0], items), lambda ch: list(ch[1]))
+    for (i, n) in crashed2:
+        note("sv-objects:random-case:crashes-the-interpreter", f"random case (N={n}, index {i}) kills the Python process (segmentation fault / abort)", {"idx": i, "n": n, "seed": seed})
+    for res in parts2:
         worst = max(worst, res["margin"])
         notimpl |= set(res["notimpl"])
         for key, what, desc in res["fails"]:
